@@ -604,6 +604,54 @@ theorem blocked_forgotten (c : Cfg) (inp : CycIn) (s : St) : (forgotten inp s).s
   unfold forgotten St.spawnBlocked blockedIn
   cases inp.deleted <;> simp
 
+theorem spawnAct_spawn (e t st : Bool) : (spawnAct e t st).spawn = !t := by
+  cases e <;> cases t <;> cases st <;> rfl
+
+theorem spawnAct_delays (c : Cfg) (e t st : Bool) :
+    ((spawnAct e t st).delay.map (delayVal c 0)).toList = if (e && t && st) = true then [c.polling] else [] := by
+  cases e <;> cases t <;> cases st <;> rfl
+
+theorem stopping_isSome {s : St} (h : s.stopping = true) : s.run.isSome = true := by
+  unfold St.stopping at h
+  cases hr : s.run with
+  | none => rw [hr] at h; cases h
+  | some i => rfl
+
+theorem flaggedMismatch_isSome {s : St} (h : s.flaggedMismatch = true) : s.run.isSome = true := by
+  unfold St.flaggedMismatch at h
+  cases hr : s.run with
+  | none => rw [hr] at h; cases h
+  | some i => rfl
+
+theorem spawn_step_eq (c : Cfg) (s0 : St) (sel bl : Bool) :
+    (if (sel && !bl && (spawnAct c.escorts s0.run.isSome s0.stopping).spawn) = true then spawn s0 else s0) =
+      (if (sel && s0.run.isNone && !bl) = true then spawn s0 else s0) := by
+  rw [spawnAct_spawn]
+  cases sel <;> cases bl <;> cases s0.run <;> rfl
+
+theorem spawn_delays_eq (c : Cfg) (s0 : St) (sel bl : Bool) :
+    (if (sel && !bl) = true then ((spawnAct c.escorts s0.run.isSome s0.stopping).delay.map (delayVal c 0)).toList else []) =
+      (if (c.escorts && sel && !bl && s0.stopping) = true then [c.polling] else []) := by
+  rw [spawnAct_delays]
+  cases hst : s0.stopping
+  · cases sel <;> cases bl <;> cases c.escorts <;> cases s0.run.isSome <;> rfl
+  · rw [stopping_isSome hst]
+    cases sel <;> cases bl <;> cases c.escorts <;> rfl
+
+theorem revisit_eq (c : Cfg) (s0 : St) (sel bl g : Bool) :
+    ((if (sel && s0.run.isNone && !bl) = true then spawn s0 else s0).run.isSome && escorted c sel s0 &&
+        revisitNow c.escorts sel g) = (c.escorts && sel && s0.flaggedMismatch && g) := by
+  unfold escorted matchVisits revisitNow
+  cases hfl : s0.flaggedMismatch
+  · cases sel <;> cases c.escorts <;> cases g <;> simp
+  · have hsome := flaggedMismatch_isSome hfl
+    have hnone : s0.run.isNone = false := by
+      cases hr : s0.run with
+      | none => rw [hr] at hsome; cases hsome
+      | some _ => rfl
+    simp only [hnone, Bool.and_false, Bool.false_and, Bool.false_eq_true, if_false, hsome, Bool.true_and]
+    cases sel <;> cases c.escorts <;> cases g <;> rfl
+
 /-- the three stages of an unmarked cycle, as states -/
 theorem cycle_unfold (c : Cfg) (inp : CycIn) (s : St) :
     cycle c inp s =
@@ -612,11 +660,23 @@ theorem cycle_unfold (c : Cfg) (inp : CycIn) (s : St) :
         let s0 := forgotten inp s
         let sel := inp.matching && !s0.forever
         let s1 := if sel && s0.run.isNone && !s0.spawnBlocked c then spawn s0 else s0
-        let p2 := stopIf c s1 (!sel) .mismatch inp.ex1
+        let ds := if c.escorts && sel && !s0.spawnBlocked c && s0.stopping then [c.polling] else []
+        let p2 := stopIf c s1 (escorted c sel s0) .mismatch inp.ex1
+        let dz := if c.escorts && sel && s0.flaggedMismatch && p2.1.run.isNone then [0] else []
         let p3 := stopIf c p2.1 inp.paused .pausing inp.ex2
-        (p3.1, p2.2 ++ p3.2) := by
-  unfold cycle forgotten
-  rfl
+        (p3.1, ds ++ p2.2 ++ dz ++ p3.2) := by
+  cases hm : inp.marked
+  case true => unfold cycle forgotten; simp only [hm, if_true]
+  case false =>
+    unfold cycle forgotten
+    simp only [hm, Bool.false_eq_true, if_false, cycleCore]
+    generalize (if inp.deleted = true then ({ s with known := false, goneAt := some s.now } : St) else s) = s0
+    generalize (inp.matching && !s0.forever) = sel
+    generalize s0.spawnBlocked c = bl
+    rw [spawn_step_eq, spawn_delays_eq]
+    simp only [revisit_eq]
+
+theorem escorted_unselected (c : Cfg) (s : St) : escorted c false s = true := rfl
 
 /-- What one processing cycle does to this handler id. -/
 theorem cycle_spec {c : Cfg} {s : St} (h : Inv c s) (inp : CycIn) :
@@ -681,8 +741,9 @@ theorem cycle_spec {c : Cfg} {s : St} (h : Inv c s) (inp : CycIn) :
         rw [hcc] at hcond
         simp [hi] at hcond
     obtain ⟨e1n, e1f, e1k, e1s, e1same⟩ := e1
-    obtain ⟨h2, ev2, asked2⟩ := stopIf_spec h1 (r := .mismatch) rfl (!sel) inp.ex1
-    generalize hs2 : stopIf c s1 (!sel) .mismatch inp.ex1 = p2 at hs' h2 ev2 asked2
+    generalize hesc : escorted c sel s0 = esc at hs'
+    obtain ⟨h2, ev2, asked2⟩ := stopIf_spec h1 (r := .mismatch) rfl esc inp.ex1
+    generalize hs2 : stopIf c s1 esc .mismatch inp.ex1 = p2 at hs' h2 ev2 asked2
     obtain ⟨s2, dm⟩ := p2
     obtain ⟨h3, ev3, asked3⟩ := stopIf_spec h2 (r := .pausing) rfl inp.paused inp.ex2
     generalize hs3 : stopIf c s2 inp.paused .pausing inp.ex2 = p3 at hs' h3 ev3 asked3
@@ -706,7 +767,7 @@ theorem cycle_spec {c : Cfg} {s : St} (h : Inv c s) (inp : CycIn) :
     · intro _ hns i' hi'
       have hsf : sel = false := by rw [← hsel']; exact hns
       obtain ⟨j, hj, m, _⟩ := ev3.same i' hi'
-      exact m.reasons _ (asked2 (by simp [hsf]) j hj)
+      exact m.reasons _ (asked2 (by rw [← hesc, hsf]; rfl) j hj)
     · intro _ hp i' hi'
       exact asked3 hp i' hi'
 
@@ -769,8 +830,9 @@ theorem cycle_frame {c : Cfg} {s : St} (h : Inv c s) (inp : CycIn) :
         rw [hcc] at hcond
         simp [hi] at hcond
     obtain ⟨e1p, e1d, e1x, e1g, e1same, e1fresh⟩ := e1
-    obtain ⟨h2, ev2, _⟩ := stopIf_spec h1 (r := .mismatch) rfl (!sel) inp.ex1
-    generalize hs2 : stopIf c s1 (!sel) .mismatch inp.ex1 = p2 at hs' h2 ev2
+    generalize hesc : escorted c sel s0 = esc at hs'
+    obtain ⟨h2, ev2, _⟩ := stopIf_spec h1 (r := .mismatch) rfl esc inp.ex1
+    generalize hs2 : stopIf c s1 esc .mismatch inp.ex1 = p2 at hs' h2 ev2
     obtain ⟨s2, dm⟩ := p2
     obtain ⟨_, ev3, _⟩ := stopIf_spec h2 (r := .pausing) rfl inp.paused inp.ex2
     generalize hs3 : stopIf c s2 inp.paused .pausing inp.ex2 = p3 at hs' ev3
